@@ -33,7 +33,7 @@ fn to_n(n: &Node) -> N {
 }
 
 /// A universe of nodes stressing the ordering: secure/insecure mixes, shared IPs, near ties.
-fn universe(rng: &mut Rng, target: &[u8; 20], size: usize) -> (Vec<N>, u64) {
+pub fn universe(rng: &mut Rng, target: &[u8; 20], size: usize) -> (Vec<N>, u64) {
     let mut v: Vec<N> = Vec::new();
     let mut feat = 0u64;
     let ips_pool: Vec<Ipv4Addr> = (0..(size / 3 + 2)).map(|_| pub_ip(rng)).collect();
@@ -113,7 +113,7 @@ fn show(n: &N) -> serde_json::Value {
     json!({"id": crate::bencode::hex(&n.0), "addr": n.1.to_string(), "secure": secure(n)})
 }
 
-fn check_table(r: &mut Report, rng: &mut Rng, uni: &[N], feat: u64, targets: &[[u8; 20]], case_id: u64) {
+pub fn check_table(r: &mut Report, rng: &mut Rng, uni: &[N], feat: u64, targets: &[[u8; 20]], case_id: u64) {
     let table_id: [u8; 20] = rng.array();
     let mut table = RoutingTable::new(Id::from(table_id));
     for n in uni {
@@ -157,7 +157,7 @@ fn check_table(r: &mut Report, rng: &mut Rng, uni: &[N], feat: u64, targets: &[[
     }
 }
 
-fn check_accumulator(r: &mut Report, rng: &mut Rng, uni: &[N], feat: u64, t: &[u8; 20], case_id: u64) {
+pub fn check_accumulator(r: &mut Report, rng: &mut Rng, uni: &[N], feat: u64, t: &[u8; 20], case_id: u64) {
     let mut acc = ClosestNodes::new(Id::from(*t));
     let mut added: Vec<N> = Vec::new();
     for n in uni {
